@@ -7,6 +7,7 @@ import (
 	"go/types"
 	"os"
 	"path/filepath"
+	"regexp"
 	"strings"
 )
 
@@ -104,9 +105,18 @@ func genReflect(out string, root, irefl *pkgFiles) {
 	// 2. resolveMap: guard on the key kind before MapIndex
 	checksKeyKind := false
 	if fd := irefl.fn("resolveMap"); fd != nil {
+		locals := map[string]string{} // simple local definitions seen so far (`keyType := rv.Type().Key()`): inlined into the guard's text
 		for _, s := range fd.Body.List {
+			if as, isAs := s.(*ast.AssignStmt); isAs && as.Tok == token.DEFINE && len(as.Lhs) == 1 && len(as.Rhs) == 1 {
+				if id, isID := as.Lhs[0].(*ast.Ident); isID {
+					locals[id.Name] = normExpr(as.Rhs[0])
+				}
+			}
 			if ifs, ok := s.(*ast.IfStmt); ok {
 				c := normExpr(ifs.Cond)
+				for name, def := range locals {
+					c = regexp.MustCompile(`\b`+regexp.QuoteMeta(name)+`\b`).ReplaceAllString(c, def)
+				}
 				if strings.Contains(c, "Key().Kind()!=reflect.String") && len(ifs.Body.List) == 1 {
 					if r, ok := ifs.Body.List[0].(*ast.ReturnStmt); ok && len(r.Results) == 2 && exprString(r.Results[0]) == "nil" && exprString(r.Results[1]) == "false" {
 						checksKeyKind = true
@@ -164,11 +174,26 @@ func genReflect(out string, root, irefl *pkgFiles) {
 	envStructFirst := false
 	if fd := root.method("Stack", "EnvMap"); fd != nil {
 		loopAt, popAt := -1, -1
+		// the scope loop is the loop that STORES into the result map (a loop that only adds up sizes for a capacity hint is not it)
+		storesIntoMap := func(n ast.Node) bool {
+			found := false
+			ast.Inspect(n, func(x ast.Node) bool {
+				if as, ok := x.(*ast.AssignStmt); ok {
+					for _, l := range as.Lhs {
+						if _, isIdx := l.(*ast.IndexExpr); isIdx {
+							found = true
+						}
+					}
+				}
+				return !found
+			})
+			return found
+		}
 		for i, s := range fd.Body.List {
-			if _, isFor := s.(*ast.ForStmt); isFor && loopAt < 0 {
+			if fs, isFor := s.(*ast.ForStmt); isFor && loopAt < 0 && storesIntoMap(fs.Body) {
 				loopAt = i
 			}
-			if rs, isRange := s.(*ast.RangeStmt); isRange && loopAt < 0 && strings.HasSuffix(exprString(rs.X), ".stack") {
+			if rs, isRange := s.(*ast.RangeStmt); isRange && loopAt < 0 && strings.HasSuffix(exprString(rs.X), ".stack") && storesIntoMap(rs.Body) {
 				loopAt = i
 			}
 			if containsCall(s, "PopulateStructFields") && popAt < 0 {
@@ -312,7 +337,7 @@ func genEntryFacts(out string, root *pkgFiles) {
 		})
 		// a composite literal is not handled by exprString: look at the source text of the function instead
 		src := nodeText(root, fd)
-		if strings.Contains(src, "&errWriter{w: w}") {
+		if strings.Contains(src, "errWriter{w: w}") { // `&errWriter{w: w}` or a local value `ew := errWriter{w: w}` passed as &ew
 			wraps = true
 		}
 		remembers := false
@@ -670,8 +695,24 @@ func genMergeFacts(out string, root *pkgFiles) {
 			}
 			return true
 		})
+		// simple local names for the sources (`config := t.vue.initialData`)
+		alias := map[string]string{}
+		ast.Inspect(fd.Body, func(n ast.Node) bool {
+			if as, ok := n.(*ast.AssignStmt); ok && as.Tok == token.DEFINE && len(as.Lhs) == 1 && len(as.Rhs) == 1 {
+				if id, isID := as.Lhs[0].(*ast.Ident); isID {
+					switch r := exprString(as.Rhs[0]); r {
+					case "t.vue.initialData", "t.frontMatter":
+						alias[id.Name] = r
+					}
+				}
+			}
+			return true
+		})
 		sawPassed := false
 		for _, src := range mergeSources(root, fd.Body) {
+			if a, ok := alias[src]; ok {
+				src = a
+			}
 			switch {
 			case src == "t.vue.initialData":
 				fillOrder = append(fillOrder, ".initialData")
